@@ -38,6 +38,7 @@ type Run struct {
 	BatchIn       []string
 	ForEachRefRan int
 	ArgProblems   []string
+	Unmodelled    []string // options the stub does not model (it behaves as if they were absent)
 	FaultsFired   map[string]int
 	peerN         map[string]int
 	stages        []*simStage
@@ -105,6 +106,23 @@ func classify(args []string) (string, []string) {
 	return "", nil
 }
 
+// modelledArg: the options the stub implements (exactly what git-sizer
+// passes today). Anything else is ignored by the stub and recorded, so that
+// the checks know to ask real git as well.
+func modelledArg(kind, a string) bool {
+	switch kind {
+	case "rev-list":
+		return a == "--objects" || a == "--stdin" || a == "--date-order"
+	case "batch-check":
+		return a == "--batch-check" || a == "--buffer"
+	case "batch":
+		return a == "--batch" || a == "--buffer"
+	case "for-each-ref":
+		return strings.HasPrefix(a, "--format=")
+	}
+	return true
+}
+
 func hasArg(args []string, f string) bool {
 	for _, a := range args {
 		if a == f {
@@ -144,6 +162,13 @@ func (r *Run) Factory(name string, cmd *exec.Cmd) pipe.Stage {
 	n := r.peerN[kind]
 	r.peerN[kind]++
 	r.mu.Unlock()
+	for _, a := range rest {
+		if !modelledArg(kind, a) {
+			r.mu.Lock()
+			r.Unmodelled = append(r.Unmodelled, kind+" "+a)
+			r.mu.Unlock()
+		}
+	}
 	st := &simStage{name: name, run: r, kind: kind, args: rest, full: cmd.Args, done: make(chan struct{}), nth: n}
 	st.plan = r.sc.Plan.Peer(kind)
 	// Does the process address the right repository?
